@@ -38,7 +38,7 @@ CHECKS = {
             "with a duplicated FROM name are excluded (outside the model); the list semantics of SQL itself and SQLite's "
             "acceptance of the query are modelled and validated by running every generated query on SQLite under both scan "
             "orders, not proved. " + CORR, "", "DESIGN.md 5/C02"),
-    "C03": (PR, "Lean 4 theorems: backtracking_sound (induction over trees using C04/C05 + locality of widened projections), apply_with_options_sound (iteration engines) and apply_on_sql_target_sound (SQL-engine targets) for every option combination + correspondence",
+    "C03": (PR, "Lean 4 theorems: backtracking_sound (induction over trees using C04/C05 + locality of widened projections), join_backtracking_sound (joins into a SQL preferred engine), apply_with_options_sound (iteration engines) and apply_on_sql_target_sound (SQL-engine targets) for every option combination + correspondence",
             "Machine-checked for the unary operation classes between iteration engines, every tree, every option "
             "combination: backtrack_unary returns a well-formed relation that has (done) or yields under the operation "
             "(not done) the content of the operation applied at the root; apply(...) with any preferred_engine/backtrack/"
@@ -50,8 +50,15 @@ CHECKS = {
             "that leads there) and apply with such a preferred engine for every backtrack/require combination with "
             "transfer=False (backtracking_sound_any_preferred_engine, apply_with_sql_preferred_engine_sound), and with "
             "transfer=True without back-tracking (apply_with_transfer_to_preferred_engine_sound: the target is transferred "
-            "into the preferred engine, a database conforms the new Transfer, and the operation is applied there). Proof "
-            "(partial): a Projection past a Deduplication (finding F04) is excluded by hypothesis; joins, and transfer=True "
+            "into the preferred engine, a database conforms the new Transfer, and the operation is applied there). JOINS: "
+            "join_backtracking_sound - back-tracking of a PartialJoin (common columns resolved, fixed relation in a SQL "
+            "preferred engine) from any iteration-engine tree either hands the tree back (not done) or returns a well-formed "
+            "relation in the tree's engine with the columns and, as a multiset (a join defines no order), the rows of joining at "
+            "the root - by induction over the tree from partial_join_commute_sound (C04), _finish_apply (C05) and the SQL join "
+            "factory below the transfer (C17). Proof "
+            "(partial): a Projection past a Deduplication (finding F04) is excluded by hypothesis; for joins the glue of apply "
+            "around backtrack_unary (_begin_apply resolving the common columns, the fall-through when back-tracking does not "
+            "finish) and payload-holding Transfers on the way; and transfer=True "
             "COMBINED with back-tracking towards a SQL preferred engine from an iteration-engine target, are validated by correspondence + oracle. The proof attempt itself exposed three genuine defects, now repaired. " + CORR,
             "", "DESIGN.md 5/C03"),
     "C04": (PR, "Lean 4 theorems commute_sound_partial (all 49 operation-class pairs) and partial_join_commute_sound (a join past every operation class) + machine-checked counterexample for the one unsound pair + correspondence",
